@@ -346,9 +346,23 @@ pub fn fdselect_variants() -> Vec<(String, Vec<u8>)> {
 
 fn fdselect_font(i: usize) -> Vec<u8> {
     let vars = fdselect_variants();
-    let mut font = c02::cff2prog::Parts::new().build_with_table(cff2_with_fdselect(&vars[i % vars.len()].1));
-    patch_table(&mut font, b"maxp", 4, &(FDSELECT_GLYPHS as u16).to_be_bytes());
-    font
+    // c02's metric tables describe 2 glyphs: widen maxp / hhea / hmtx to FDSELECT_GLYPHS
+    use write_fonts::{types::Tag, FontBuilder};
+    let n = FDSELECT_GLYPHS as u16;
+    let mut fb = FontBuilder::new();
+    for (tag, mut data) in c02::cffprog::Parts::new().metric_tables() {
+        if tag == Tag::new(b"maxp") {
+            data[4..6].copy_from_slice(&n.to_be_bytes());
+        } else if tag == Tag::new(b"hhea") {
+            let l = data.len();
+            data[l - 2..].copy_from_slice(&n.to_be_bytes());
+        } else if tag == Tag::new(b"hmtx") {
+            data = [0x02u8, 0x58, 0, 0].repeat(FDSELECT_GLYPHS);
+        }
+        fb.add_raw(tag, data);
+    }
+    fb.add_raw(Tag::new(b"CFF2"), cff2_with_fdselect(&vars[i % vars.len()].1));
+    fb.build()
 }
 
 pub const UPEMS: [u16; 6] = [1, 2, 16, 128, 1000, 0xFFFF];
@@ -419,6 +433,10 @@ pub fn cases(quick: bool) -> Vec<Value> {
         json!({"driver": "c20deep", "fam": "fdselect"}),
     ];
     v.extend(tt_cases(quick));
+    if let Ok(only) = std::env::var("C20DEEP_ONLY") {
+        // development aid: restrict to one family
+        v.retain(|c| c["fam"] == only.as_str());
+    }
     v
 }
 
